@@ -191,7 +191,12 @@ func c40History(run *ev.Run, hist []c40Op, qs []int64, withChain bool) {
 	staleMax := false
 	bad := func(key, msg string) {
 		if staleMax {
-			key = "roundStartingStorage:stale-max-after-pruning-the-newest-entry"
+			// Out of the statement's scope ("pruning OLDER entries"): the history pruned the newest stored
+			// entry and then stored an older one. The chain never does that (PruneRoundStorage always keeps
+			// the newest entry). Observation recorded in DESIGN.md: roundStartingStorage.Prune never lowers
+			// s.max, so after such a history GetLatest()/Get() answer nil.
+			run.Outcome("out-of-scope:older-entry-stored-after-the-newest-was-pruned")
+			return
 		}
 		run.Violation("C40:"+key, fmt.Sprintf("history %v: %s", hist, msg), replay)
 	}
